@@ -1,7 +1,7 @@
 (* Props/C19.v — the theorems that decide property C19 (chain-root MMR part;
    the block-filter clauses are decided by the harness's predicate only, see
    the level note).  Statements only. *)
-From CKB Require Import Chain.MMR Chain.MMRProofs.
+From CKB Require Import Chain.MMR Chain.MMRProofs Chain.Filter Chain.FilterProofs.
 
 (* The MMR is append-only: the node at a position depends only on the leaves
    before it, so two chains share the nodes of their common prefix. *)
@@ -49,6 +49,24 @@ Theorem c19_build_inv : forall (D : Type) (merge : D -> D -> D) l,
   Inv D (build D merge l) (N.of_nat (length l)).
 Proof. exact build_inv. Qed.
 
+(* Block filters: one pass of the filter builder after ANY change of the main
+   chain (it restarts after the last built block that is still on the main
+   chain, or at the fork point of the branch that block is on) never hits its
+   `expect`, leaves every main-chain block with a filter hash, and every filter
+   hash is H(parent's filter hash, the block's filter data) all the way down to
+   genesis — a function of the block's ancestry only. *)
+Theorem c19_filter_pass_ok : forall (parent : N -> N) (num : N -> nat) (H2 : N -> N -> N),
+  num 0%N = 0 -> (forall b, b <> 0%N -> num b = S (num (parent b))) -> (forall b, num b = 0 -> b = 0%N) ->
+  forall main s, chain_ok parent num main -> FInv parent num H2 s ->
+  exists s', build_pass parent num H2 main s = Some s' /\ FInv parent num H2 s' /\
+             (forall k b, nth_error main k = Some b -> fh s' b = Some (fh_spec parent H2 (num b) b)).
+Proof. exact build_pass_ok. Qed.
+
+Theorem c19_filter_example :
+  N.to_nat 0%N = 0 /\ (forall b, b <> 0%N -> N.to_nat b = S (N.to_nat (N.pred b))) /\
+  (forall b, N.to_nat b = 0 -> b = 0%N) /\ chain_ok N.pred N.to_nat [0; 1; 2; 3]%N.
+Proof. exact ex_filter_hyps. Qed.
+
 (* non-vacuity *)
 Theorem c19_example_contains : contains ndig ex_store (m_nodes (build ndig nmerge ex_common)).
 Proof. exact ex_contains. Qed.
@@ -69,3 +87,5 @@ Redirect "out/C19.c19_roots_after_reorg" Print Assumptions c19_roots_after_reorg
 Redirect "out/C19.c19_build_inv" Print Assumptions c19_build_inv.
 Redirect "out/C19.c19_example_contains" Print Assumptions c19_example_contains.
 Redirect "out/C19.c19_example_reorg" Print Assumptions c19_example_reorg.
+Redirect "out/C19.c19_filter_pass_ok" Print Assumptions c19_filter_pass_ok.
+Redirect "out/C19.c19_filter_example" Print Assumptions c19_filter_example.
